@@ -789,7 +789,7 @@ func (x *Exec) execAssign(st *State, s *ast.AssignStmt, env *Env) []*State {
 			lk := x.LocKey(c, s.Lhs[0], env)
 			old, rv := x.ValueName(c, s.Lhs[0], env), x.ValueName(c, s.Rhs[0], env)
 			nv := Sym("opassign" + tok)
-			if len(old)+len(rv) < 120 && !strings.Contains(old, tok) && !strings.Contains(old, "(") {
+			if len(old)+len(rv) < 400 && !strings.Contains(old, tok) && !strings.Contains(old, "opassign") && !strings.Contains(old, "incdec") {
 				nv = Sym("(" + old + strings.TrimSuffix(s.Tok.String(), "=") + rv + ")")
 			}
 			c = x.kill(x.Forget(c, tok), lk, tok)
@@ -832,11 +832,19 @@ func (x *Exec) execAssign(st *State, s *ast.AssignStmt, env *Env) []*State {
 			var val Term
 			switch r := rhs.(type) {
 			case *ast.IndexExpr: // v, ok := m[k]
+				// the element is named by the value of the key (a helper's parameter names
+				// what the caller passed)
+				en := x.canonEnv(r, env)
+				if _, isConst := x.P.ConstInt(r.Index); !isConst {
+					if kn := x.ValueName(c, r.Index, env); kn != "" && !strings.ContainsAny(kn, "@") {
+						en = x.LocKey(c, r.X, env) + "[" + kn + "]"
+					}
+				}
 				if i == 0 {
-					val = Sym(x.canonEnv(r, env))
+					val = Sym(en)
 				} else {
-					val = Ref("has:" + x.canonEnv(r, env))
-					x.dom("has:" + x.canonEnv(r, env))
+					val = Ref("has:" + en)
+					x.dom("has:" + en)
 				}
 			case *ast.TypeAssertExpr:
 				if i == 0 {
@@ -1231,6 +1239,37 @@ func (x *Exec) valueTerm(st *State, e ast.Expr, env *Env) Term {
 		} else {
 			base = v.(*ast.SliceExpr).X
 		}
+		// a sub-slice whose bounds are variables holding known values: name it by
+		// those values (so b[2:end] with end := 2+size is b[2:(2+size)])
+		if se, ok := v.(*ast.SliceExpr); ok && !se.Slice3 {
+			subst := false
+			bound := func(e ast.Expr) string {
+				if e == nil {
+					return ""
+				}
+				if id, isId := ast.Unparen(e).(*ast.Ident); isId {
+					if _, isConst := x.P.ConstInt(id); !isConst {
+						ik := x.canonEnv(id, env)
+						if it, ok := st.Store[ik]; ok && (it.K == KSym || it.K == KConst) && it.S != ik && x.marked(st, ik) == ik {
+							subst = true
+							return it.S
+						}
+					}
+				}
+				return x.canonEnv(e, env)
+			}
+			lo, hi := bound(se.Low), bound(se.High)
+			if subst {
+				bn := x.LocKey(st, se.X, env)
+				if id, ok := ast.Unparen(se.X).(*ast.Ident); ok {
+					bk := x.canonEnv(id, env)
+					if bt, ok := st.Store[bk]; ok && bt.K == KSym && bt.S != bk {
+						bn = bt.S
+					}
+				}
+				return Sym(bn + "[" + lo + ":" + hi + "]")
+			}
+		}
 		if id, ok := ast.Unparen(base).(*ast.Ident); ok && x.marked(st, key) == key {
 			bk := x.canonEnv(id, env)
 			if bt, ok := st.Store[bk]; ok && bt.K == KSym && bt.S != bk && strings.HasPrefix(key, bk) {
@@ -1303,7 +1342,9 @@ func (x *Exec) evalCalls(st *State, e ast.Expr, env *Env) []*State {
 			if v.Op == token.ARROW {
 				var next []*State
 				for _, c := range states {
-					next = append(next, x.Effect(c, "RECV", v.Pos(), map[string]string{"chan": x.LocKey(c, v.X, env)}))
+					// the channel received from, by the value the operand holds (a parameter or
+					// local that was handed a field's channel names that field)
+					next = append(next, x.Effect(c, "RECV", v.Pos(), map[string]string{"chan": x.ValueName(c, v.X, env), "loc": x.LocKey(c, v.X, env)}))
 				}
 				states = next
 			}
@@ -2003,9 +2044,14 @@ func (x *Exec) evalCmp2(st *State, a ast.Expr, op token.Token, b ast.Expr, envA,
 		if x.isNil(a) {
 			o, env = b, envB
 		}
-		key := x.ValueName(st, o, env) + "==nil"
+		vn := x.ValueName(st, o, env)
+		key := vn + "==nil"
 		var res []OutB
-		if t, ok := st.Store[key]; ok && t.K != KSym {
+		if vn == "nil" {
+			res = outs(st, true) // the value is the nil literal (e.g. handed back by a helper explored in place)
+		} else if strings.HasPrefix(vn, "&") && !strings.ContainsAny(vn[1:], "(@") {
+			res = outs(st, false) // the address of something
+		} else if t, ok := st.Store[key]; ok && t.K != KSym {
 			for _, r := range x.Resolve(st, t) {
 				res = append(res, OutB{r.St, r.V == "T"})
 			}
@@ -2079,10 +2125,10 @@ func (x *Exec) evalCmp2(st *State, a ast.Expr, op token.Token, b ast.Expr, envA,
 		}
 		if oka && !okb {
 			// c op X  ==  X flip(op) c
-			return x.intConstCmp(st, tb.S, core.FlipOp(op), ca, isUnsigned(x.P.TypeOf(b)) || strings.HasPrefix(tb.S, "len("))
+			return x.intConstCmp(st, tb.S, core.FlipOp(op), ca, x.nonNegExpr(b) || strings.HasPrefix(tb.S, "len(") || strings.HasPrefix(tb.S, "int(") && x.nonNegName(st, b, envB))
 		}
 		if okb && !oka {
-			return x.intConstCmp(st, ta.S, op, cb, isUnsigned(x.P.TypeOf(a)) || strings.HasPrefix(ta.S, "len("))
+			return x.intConstCmp(st, ta.S, op, cb, x.nonNegExpr(a) || strings.HasPrefix(ta.S, "len(") || strings.HasPrefix(ta.S, "int(") && x.nonNegName(st, a, envA))
 		}
 	}
 	na, nb := termName(ta), termName(tb)
@@ -2238,6 +2284,54 @@ func isOrdered(t types.Type) bool {
 }
 
 // intConstCmp evaluates X op c over the atoms "X>=k".
+// nonNegExpr: the expression cannot be negative by its type, or because it is
+// a conversion of an unsigned value to a wider integer type.
+func (x *Exec) nonNegExpr(e ast.Expr) bool {
+	e = ast.Unparen(e)
+	if isUnsigned(x.P.TypeOf(e)) {
+		return true
+	}
+	if call, ok := e.(*ast.CallExpr); ok && x.P.IsConversion(call) && len(call.Args) == 1 {
+		return isUnsigned(x.P.TypeOf(call.Args[0]))
+	}
+	return false
+}
+
+// nonNegName: a variable currently holding the value of such a conversion
+// (size := int(b[1])): the defining expression is found through the variable.
+func (x *Exec) nonNegName(st *State, e ast.Expr, env *Env) bool {
+	id, ok := ast.Unparen(e).(*ast.Ident)
+	if !ok {
+		return false
+	}
+	obj, _ := x.P.Info.Uses[id].(*types.Var)
+	if obj == nil {
+		return false
+	}
+	// the variable's single defining assignment is a conversion from an unsigned value
+	found, n := false, 0
+	for _, f := range x.P.Files {
+		if f.Pos() <= obj.Pos() && obj.Pos() <= f.End() {
+			ast.Inspect(f, func(nd ast.Node) bool {
+				as, ok := nd.(*ast.AssignStmt)
+				if !ok {
+					return true
+				}
+				for i, l := range as.Lhs {
+					if lid, ok := l.(*ast.Ident); ok && x.P.Info.ObjectOf(lid) == obj {
+						n++
+						if len(as.Lhs) == len(as.Rhs) && x.nonNegExpr(as.Rhs[i]) {
+							found = true
+						}
+					}
+				}
+				return true
+			})
+		}
+	}
+	return found && n == 1
+}
+
 func isUnsigned(t types.Type) bool {
 	if t == nil {
 		return false
